@@ -1,6 +1,7 @@
 package main
 
 import (
+	"fmt"
 	"go/ast"
 	"go/token"
 	"go/types"
@@ -242,6 +243,7 @@ func checkC14(c *Check) {
 	c.Expl = "Structural clauses of 'type equivalence is lawful; aliases transparent, definitions opaque': Equal/DeepEqual are kernels N(a)==N(b) of one normaliser (R14.1) over strictly comparable implementers (R14.2); the normalisers rewrite exactly aliases, list elements (recursively) and generic instantiations and never type definitions (R14.3); outside ddptypes every dynamic test on a ddptypes.Type value (==, switch, assertion, type switch) has a normalised operand (R14.4); the checker's admissibility tables for initialisation, assignment and casts are evaluated cell-wise over the type classes incl. aliases and definitions (R14.5/R14.6, engine E2). Not decided: behaviour for every depth-3 type term beyond the class representatives."
 	dp := L.ByRel["src/ddptypes"]
 	info := dp.TypesInfo
+	checkC14PredicateModels(c)
 
 	// ---- R14.1 kernel form ----
 	r1 := c.Rule("R14.1", "Equal and DeepEqual are N(t1) == N(t2) for one normaliser N", 2)
@@ -508,4 +510,55 @@ func ddpNamedAst(t types.Type, name string) bool {
 	}
 	nt, ok := t.(*types.Named)
 	return ok && nt.Obj().Name() == name && nt.Obj().Pkg() != nil && nameIs(nt.Obj().Pkg(), "ast")
+}
+
+// R14.9: the type predicates of ddptypes agree, on every class representative, with the models the cell evaluation uses
+// for them (the models are what R4.4/R14.6's admissibility tables were computed with; GetUnderlying and TrueUnderlying keep
+// their models here - R14.3 constrains them). A predicate that starts to look through type definitions (or stops looking
+// through aliases) changes which programs are accepted without any checker function changing.
+func checkC14PredicateModels(c *Check) {
+	L := c.L
+	r := c.Rule("R14.9", "ddptypes' type predicates agree with their models on every type class", 9)
+	preds := []string{"IsNumeric", "IsList", "IsStruct", "IsAny", "IsVoid", "IsTypeDef", "IsGeneric", "IsPrimitive", "IsPrimitiveOrVoid", "IsTypeAlias"}
+	classes := dtClasses(c.Tier)
+	for _, name := range preds {
+		fi := L.Fn("src/ddptypes." + name)
+		key := "ddptypes." + name
+		if fi == nil {
+			r.Und(key, token.NoPos, "function not found")
+			continue
+		}
+		in := NewInterp(L)
+		installDDPTypesModels(in)
+		model := in.Models["ddptypes."+name]
+		if model == nil {
+			r.Und(key, fi.Decl.Pos(), "the evaluator has no model for this predicate")
+			continue
+		}
+		delete(in.Models, "ddptypes."+name)
+		var bad []string
+		und := 0
+		for _, d := range classes {
+			var real Val
+			runs, _ := in.RunAll(4, func() { real = in.CallFunc(fi, nil, []Val{TypeV{d}}) })
+			mv, _ := model(in, fi.Pkg, nil, nil, []Val{TypeV{d}})
+			rt, rk := truth(real)
+			mt, mk := truth(mv)
+			if runs != 1 || !rk || !mk {
+				und++
+				continue
+			}
+			if rt != mt {
+				bad = append(bad, fmt.Sprintf("%s(%s) is %v, the rules of the language (and the evaluator's model) say %v", name, d, rt, mt))
+			}
+		}
+		switch {
+		case len(bad) > 0:
+			r.Bad(key, fi.Decl.Pos(), strings.Join(firstN(bad, 3), "; ")+": every rule that asks this predicate now treats such types differently (e.g. a type definition is implicitly converted to and from its base)")
+		case und > 0:
+			r.Und(key, fi.Decl.Pos(), fmt.Sprintf("%d of %d classes could not be evaluated", und, len(classes)))
+		default:
+			r.OK(key, fi.Decl.Pos(), fmt.Sprintf("agrees with its model on %d type classes", len(classes)))
+		}
+	}
 }
